@@ -596,6 +596,7 @@ type Options struct {
 	PrintSep          string
 	Sync              bool
 	History           *History
+	historyMax        int
 	Header            []string
 	HeaderLines       int
 	HeaderFirst       bool
@@ -2175,14 +2176,12 @@ func optString(arg string, prefix string) (bool, string) {
 
 func parseOptions(index *int, opts *Options, allArgs []string) error {
 	var err error
-	var historyMax int
-	if opts.History == nil {
-		historyMax = defaultHistoryMax
-	} else {
-		historyMax = opts.History.maxSize
+	// The size may come from an earlier set of options, e.g. $FZF_DEFAULT_OPTS
+	if opts.historyMax == 0 {
+		opts.historyMax = defaultHistoryMax
 	}
 	setHistory := func(path string) error {
-		h, e := NewHistory(path, historyMax)
+		h, e := NewHistory(path, opts.historyMax)
 		if e != nil {
 			return e
 		}
@@ -2190,12 +2189,12 @@ func parseOptions(index *int, opts *Options, allArgs []string) error {
 		return nil
 	}
 	setHistoryMax := func(max int) error {
-		historyMax = max
-		if historyMax < 1 {
+		if max < 1 {
 			return errors.New("history max must be a positive integer")
 		}
+		opts.historyMax = max
 		if opts.History != nil {
-			opts.History.maxSize = historyMax
+			opts.History.maxSize = max
 		}
 		return nil
 	}
